@@ -144,18 +144,17 @@ def check_parser_side(ctx, lib):
     b = ctx.fn(P + "led", rule=rule)
     if b is None:
         return
-    o = Origins(b, lib)
-    br = Branches(b, o)
-    blk, ve = first_discr_switch(b, br, TOKEN)
-    if ve is None:
+    from ..parsing import KindDispatch
+    kd = KindDispatch(lib, b)
+    if kd.first_consume is None:
         ctx.missing(rule, "led", "led dispatch")
         return
     for tok, callee in (("Pipe", P + "expr"), ("Dot", P + "parse_dot")):
-        if tok not in ve["edges"]:
+        if not kd.accepts(tok):
             ctx.bad(rule, tok, f"led has no arm for {tok}", b.span)
             continue
-        e = (blk, ve["edges"][tok])
-        blocks = {x for x in region(b, e[1]) if edge_dominates(b, e, x)}
+        blocks = kd.region(tok)
+        o = kd.origins(tok)
         aggs = [s for _, _, s in region_aggs(b, blocks, AST)]
         ok = len(aggs) == 1 and aggs[0]["rv"]["variant"] == "Subexpr"
         if ok:
@@ -164,12 +163,10 @@ def check_parser_side(ctx, lib):
         ctx.check(ok, rule, tok, f"`{'|' if tok == 'Pipe' else '.'}` builds Subexpr(lhs: left operand, rhs: freshly parsed operand)", b.span)
     n = ctx.fn(P + "nud", rule=rule)
     if n is not None:
-        no = Origins(n, lib)
-        nbr = Branches(n, no)
-        blk, ve = first_discr_switch(n, nbr, TOKEN)
-        if ve and "Lparen" in ve["edges"]:
-            e = (blk, ve["edges"]["Lparen"])
-            blocks = {x for x in region(n, e[1]) if edge_dominates(n, e, x)}
+        nkd = KindDispatch(lib, n)
+        if nkd.accepts("Lparen"):
+            blocks = nkd.region("Lparen")
+            no = nkd.origins("Lparen")
             aggs = [s for _, _, s in region_aggs(n, blocks, AST)]
             oks = [s for _, _, s in region_aggs(n, blocks, "std::result::Result") if s["rv"]["variant"] == "Ok"]
             ok = not aggs and len(oks) == 1 and all(t[0] == "call" and t[1] == P + "expr" for t in no.of_operand(oks[0]["rv"]["ops"][0]))
